@@ -209,6 +209,11 @@ func faults(args []string) {
 		obs  drive.LedgerObs
 		err  error
 		mu   sync.Mutex
+		// clean programs (per dryRun flag), measured in this process: snapshot hashes are not comparable
+		// across processes (wall-clock columns of the system schema)
+		progOnce [2]sync.Once
+		prog     [2]drive.Program
+		progErr  [2]error
 	}
 	bases := map[string]*baseT{}
 	for _, c := range cases {
@@ -240,8 +245,23 @@ func faults(args []string) {
 		}
 		rq := e.Req
 		rq.Dry = c.Dry
-		// Fork clones the database under its mutex; serialise forks of the same base
-		results[i].Obs = drive.RunFaulted(b.env, b.snap, b.obs, "fw", rq, c.At, c.Kind, false, true)
+		di := 0
+		if c.Dry {
+			di = 1
+		}
+		b.progOnce[di].Do(func() { b.prog[di], b.progErr[di] = drive.Measure(b.env, "fw", rq) })
+		if b.progErr[di] != nil {
+			results[i].Obs.Incon = "measure: " + b.progErr[di].Error()
+			return
+		}
+		obs := drive.RunFaulted(b.env, b.snap, b.obs, "fw", rq, c.At, c.Kind, false, true)
+		obs.StateIdx = []int{}
+		for j, h := range b.prog[di].Hashes {
+			if h == obs.Hash {
+				obs.StateIdx = append(obs.StateIdx, j)
+			}
+		}
+		results[i].Obs = obs
 	}, func(i int, r any) {
 		results[i].ID = cases[i].ID
 		results[i].Obs.Incon = fmt.Sprintf("harness panic: %v", r)
